@@ -546,7 +546,7 @@ def make_options(env, seed, channel, manifest, num_workers=0):
     lines = Map('%s path%d\n' % (uid(u, env.nutt), u) for u in range(env.nutt))
     return types.SimpleNamespace(map=lines, computer_config=({'c': 1} if env.comp else None), dir='out', channel=channel,
                                  preprocess=[('pre', i) for i in range(env.npre)], postprocess=[('post', i) for i in range(env.npost)],
-                                 force_as=None, seed=seed, file_prefix='', file_suffix='.pt', num_workers=num_workers, manifest=manifest)
+                                 force_as=None, seed=seed, file_prefix=getattr(env, 'file_prefix', ''), file_suffix=getattr(env, 'file_suffix', '.pt'), num_workers=num_workers, manifest=manifest)
 
 
 def spec_term(env, u, seed_z, chan_z, mono_1d):
